@@ -2,7 +2,7 @@
 import ast
 
 from ..index import AnalysisError, norm, walk_no_nested
-from ..astutil import dotted
+from ..astutil import dotted, const_value
 from .. import dtable
 from .. import pattern as pat
 
@@ -21,6 +21,7 @@ EXPLANATION = (
     " Added after seed round 7: K7 _break_cycles substitutes a propagated evidence value only on paths where is_evidence is false."
     " Added after seed round 8: K8 a memo table inside one transformation function is written under the key form it is read under (module scan, positive example)."
     " Added after seed round 9: K9 set_weights stores and get_weights returns every entry it is given (plain reference or unfiltered copy)."
+    " Added after seed round 11: K10 evidence_all reports every entry as get_names stores it plus its value (1 / -1 / 0): the sign of an undetermined entry survives."
 )
 TECHNIQUE = "static analysis: clause-template extraction from the AST, decision-table extraction of _break_cycles"
 LEVEL_TEXT = EXPLANATION
@@ -525,6 +526,41 @@ def rule_k9(repo, col):
                construct="get_weights: returned weights", function="BaseFormula.get_weights")
 
 
+def rule_k10(repo, col):
+    """BaseFormula.evidence_all - what break_cycles iterates to carry the evidence over - reports every evidence entry with the key it is stored under: (name, key) + (value,)
+    with value 1 / -1 / 0 for the three labels; the sign of an undetermined entry is what break_cycles re-negates the translated node by"""
+    f = repo.func("problog.formula", "BaseFormula.evidence_all")
+    m = f.module
+    want = {"LABEL_EVIDENCE_POS": 1, "LABEL_EVIDENCE_NEG": -1, "LABEL_EVIDENCE_MAYBE": 0}
+    seen = {}
+    for c in ast.walk(f.node):
+        if not (isinstance(c, ast.ListComp) and len(c.generators) == 1):
+            continue
+        g = c.generators[0]
+        it = norm(g.iter)
+        lab = [k for k in want if it == "self.get_names(self.%s)" % k]
+        if not lab:
+            continue
+        lab = lab[0]
+        e = c.elt
+        okv = None
+        if isinstance(g.target, ast.Name) and isinstance(e, ast.BinOp) and isinstance(e.op, ast.Add) and norm(e.left) == g.target.id and isinstance(e.right, ast.Tuple) and len(e.right.elts) == 1 and not g.ifs:
+            ok_c, v = const_value(e.right.elts[0])
+            okv = ok_c and v == want[lab]
+        elif isinstance(g.target, ast.Tuple) and len(g.target.elts) == 2 and isinstance(e, ast.Tuple) and len(e.elts) == 3:
+            ok_c, v = const_value(e.elts[2])
+            okv = (not g.ifs) and [norm(x) for x in e.elts[:2]] == [norm(x) for x in g.target.elts] and ok_c and v == want[lab]
+        else:
+            raise AnalysisError("evidence_all: entry shape not understood: %s" % norm(e)[:80])
+        seen[lab] = True
+        col.decide("K10", m, c, bool(okv), "evidence_all reports the %s entries with their stored key and value %d" % (lab, want[lab]),
+                   "evidence_all builds the %s entries as %s: name and key must be reported exactly as get_names stores them, with value %d - break_cycles re-negates the translated node "
+                   "by the sign of that key, so an undetermined-evidence atom grounded to a negative literal is otherwise labelled with the positive node in the LogicDAG and the CNF"
+                   % (lab, norm(e)[:90], want[lab]), construct="evidence_all: %s entries" % lab, function="BaseFormula.evidence_all")
+    if len(seen) != 3:
+        raise AnalysisError("evidence_all: the three evidence labels not found (%s)" % sorted(seen))
+
+
 def run(repo, col):
     col.rule("K1", "clause templates of Clark's completion")
     col.rule("K2", "weights, atoms, constraints and names are carried over")
@@ -543,3 +579,5 @@ def run(repo, col):
     rule_k8(repo, col)
     col.rule("K9", "set_weights / get_weights carry every entry unchanged")
     rule_k9(repo, col)
+    col.rule("K10", "evidence_all reports every entry under its stored key")
+    rule_k10(repo, col)
